@@ -224,7 +224,7 @@ def check_cfg(rep, cfg, shared):
     # capacity-sized hash = first four elements of the full result
     from .c07 import perm_summaries
     for fn, nin, nout in (('hash_seq', 12, 4), ('hash', 12, 4)) + ((('hash_avx512', 24, 8),) if cfg == 'avx512' else ()):
-        names = mod.find_re(r'^PoseidonGoldilocks::%s\(' % fn)
+        names = harness.family(mod, r'^PoseidonGoldilocks::%s\(' % fn)
         if len(names) != 1:
             rep.incomplete('hash:%s/%s' % (cfg, fn), 'poseidon-capacity', '', 'entry point not found')
             continue
